@@ -93,6 +93,7 @@ class Sys:
             evs.append(("free", i))
         for g in GROWS:
             evs.append(("grow", g))
+        evs.append(("alloc-huge",))  # a request the machine cannot satisfy: refused, and nothing may have changed
         return evs
 
     def step(self, ev, out=None):
@@ -107,7 +108,25 @@ class Sys:
                 out.append((oracle, label, detail))
 
         cap_before = b.capacity
-        if ev[0] == "alloc":
+        if ev[0] == "alloc-huge":
+            chunks_before = repr(b.chunks)
+            try:
+                signal.alarm(20)
+                try:
+                    off = b.allocate(2**62, align=False)
+                finally:
+                    signal.alarm(0)
+            except common.Watchdog.Expired:
+                bad("C12.terminates", "allocate-hangs", "allocate(2**62)")
+                return False
+            except (MemoryError, ValueError, OverflowError):
+                if b.capacity != cap_before or repr(b.chunks) != chunks_before:
+                    bad("C04.in-bounds", "state-changed-by-refused-request", dict(capacity=(cap_before, b.capacity), chunks=(chunks_before, repr(b.chunks))))
+                    return False
+            else:
+                bad("C04.in-bounds", "out-of-bounds", dict(off=off, size=2**62, cap=b.capacity))
+                return False
+        elif ev[0] == "alloc":
             _, size, align = ev
             a = self.al if align else 1
             try:
